@@ -45,6 +45,29 @@ def build_case(rng, tier, kind, policy):
     return evs
 
 
+def deep_case(rng, policy):
+    """one table grown past the split of its first internal root (about 1165 rows with the real page constants: the
+    tree gets a third level and the old root becomes an ordinary internal node), with the split still only in the
+    log (never), already in the data file (flush after it) or flushed at the very end; then a crash, recovery TWICE,
+    further statements and another crash"""
+    g = hist.Gen(rng, 1)
+    c = g.create(cols=[("a", "int", 0), ("b", "varchar", 10)])
+    name = c["table"]
+    evs = [("stmt", c)]
+    nst = rng.randint(100, 110)
+    flush_at = {"never": None, "random": rng.randint(97, nst - 2), "always": nst - 1}[policy]
+    for i in range(nst):
+        evs.append(("stmt", {"k": "insert", "table": name, "cols": [], "rows": [[i * 12 + j, "r"] for j in range(12)]}))
+        if i == flush_at:
+            evs.append(("flush",))
+    evs.append(("stmt", {"k": "update", "table": name, "sets": [("b", "u")], "where": [[(("col", "", "a"), "=", 1170)]]}))
+    evs.append(("stmt", {"k": "delete", "table": name, "where": [[(("col", "", "a"), "=", 600)]]}))
+    evs += [("crash",), ("tables", [name]), ("dump",), ("crash",), ("tables", [name]), ("dump",),
+            ("stmt", {"k": "insert", "table": name, "cols": [], "rows": [[5000 + j, "n"] for j in range(3)]}),
+            ("tables", [name]), ("crash",), ("tables", [name]), ("dump",)]
+    return evs
+
+
 def generate(rng, tier):
     plan = [("small", 10), ("split", 8), ("manytables", 6), ("catalog", 2)] if tier == "quick" else \
            [("small", 70), ("split", 50), ("manytables", 30), ("catalog", 12)]
@@ -53,6 +76,8 @@ def generate(rng, tier):
         for i in range(n):
             policy = ["never", "random", "always"][i % 3]
             cases.append((kind + "/" + policy, build_case(rng, tier, kind, policy)))
+    for policy in (["never", "random"] if tier == "quick" else ["never", "random", "always", "never", "random"]):
+        cases.append(("deep/" + policy, deep_case(rng, policy)))
     return cases
 
 
